@@ -62,11 +62,12 @@ theorem not_missing {env : Env} {file : AFile} {G : List String} {Γ : Ctx} {f :
   | prim p t => simp [callOK] at h
   | tag i t => simp [callOK] at h
 
-/-- the same for a call of the fragment, ordinary or of a reference builtin -/
+/-- the same for a call of the fragment, ordinary or of a reference / array builtin -/
 theorem not_missing' {env : Env} {file : AFile} {G : List String} {Γ : Ctx} {f : Imm} {args : List Imm} {ty : Ty}
-    (h : (callOK env file G Γ f args ty || refCallOK env file Γ f args ty) = true) : isMissingCall f ty = false := by
-  rw [Bool.or_eq_true] at h
-  rcases h with h | h
+    (h : (callOK env file G Γ f args ty || refCallOK env file Γ f args ty || arrCallOK env file Γ f args ty) = true) :
+    isMissingCall f ty = false := by
+  simp only [Bool.or_eq_true] at h
+  rcases h with (h | h) | h
   · exact not_missing h
   · cases f with
     | var name fty =>
@@ -83,6 +84,11 @@ theorem not_missing' {env : Env} {file : AFile} {G : List String} {Γ : Ctx} {f 
           · rw [if_neg h3] at hcase; cases hcase
     | prim p t => simp [refCallOK] at h
     | tag i t => simp [refCallOK] at h
+  · cases f with
+    | var name fty =>
+      obtain ⟨hrn, hn | hn⟩ := arrcall_name h <;> subst hn <;> simp [isMissingCall, callee, hrn]
+    | prim p t => simp [arrCallOK] at h
+    | tag i t => simp [arrCallOK] at h
 
 theorem gid_ne_blank {Bad : List String} {gρ : GEnv} {t : String} (hk : gid t ∈ keys gρ)
     (hgood : ∀ y, y ∈ keys gρ → ¬ y ∈ Bad) (hus : "_" ∈ Bad) : gid t ≠ "_" :=
